@@ -9,7 +9,7 @@ from ..core import Batch, cZ, cbool, clist, cnat, copt, cpair, cstr
 ID = "C11"
 LEVEL = "proof"
 PROP_FILE = "Properties/C11.v"
-PROOF_FILES = ["Proofs/SerialProofs.v", "Proofs/NewickProofs.v", "Model/Serial.v", "Model/Newick.v", "Base/Ext.v"]
+PROOF_FILES = ["Proofs/C11EvalProofs.v", "Proofs/ReconProofs.v", "Model/CliRun.v", "Model/Recon.v", "Proofs/SerialProofs.v", "Proofs/NewickProofs.v", "Model/Serial.v", "Model/Newick.v", "Base/Ext.v"]
 TRUSTED = [
     "model Model/Serial.v of to_dict/_from_dict/from_dict (four classes), parse/serialize_tree_mapping, parse/serialize_synteny_mapping, sort_synteny: "
     "nodes as root paths, dicts as item lists in insertion order, `tree & name` as first match in level order",
